@@ -56,6 +56,68 @@ class Frame:
             self.loop_ordinals[id(nd)] = i
 
 
+def lift_const(py):
+    """Module-level constant data: dict -> cmap, (frozen)set -> cset, otherwise sym.const."""
+    if isinstance(py, dict):
+        return V("cmap", tuple((lift_const(k), lift_const(v)) for k, v in py.items()))
+    if isinstance(py, (set, frozenset)):
+        return V("cset", tuple(lift_const(x) for x in sorted(py)))
+    if isinstance(py, list):
+        return V("clistc", tuple(lift_const(x) for x in py))
+    return const(py)
+
+
+_JOIN = []
+
+
+def py_join():
+    """str.join over a list of strings of symbolic length, as a recursive spec function."""
+    if not _JOIN:
+        S = z3.StringSort()
+        SS = z3.SeqSort(S)
+        j = z3.RecFunction("py_join", S, SS, z3.IntSort(), S)
+        sep, s, n = z3.Const("sep", S), z3.Const("s", SS), z3.Int("n")
+        z3.RecAddDefinition(j, [sep, s, n], z3.If(n <= 0, z3.StringVal(""), z3.If(
+            n == 1, s[0], z3.Concat(j(sep, s, n - 1), sep, s[n - 1]))))
+        _JOIN.append(j)
+    return _JOIN[0]
+
+
+_MAPS = {}
+
+
+def py_map(body, var, seq, out_sort):
+    """[f(x) for x in seq] over a list of symbolic length: an uninterpreted function symbol keyed by the
+    (alpha-normalised) z3 term of f, so that code and contract denote the same function iff f is the same
+    term.  Axioms instantiated nowhere: only equal-by-construction reasoning is available (trusted meaning:
+    elementwise map, length preserved)."""
+    import hashlib
+    norm = z3.substitute(body, (var, z3.Const("map_arg", var.sort())))
+    key = hashlib.sha1((norm.sexpr() + str(seq.sort()) + str(out_sort)).encode()).hexdigest()[:10]
+    if key not in _MAPS:
+        _MAPS[key] = z3.Function(f"py_map_{key}", seq.sort(), z3.SeqSort(out_sort))
+    return _MAPS[key](seq)
+
+
+_RSTRIP = []
+
+
+def py_rstrip(st, s):
+    """str.rstrip() as a function symbol with its defining axioms instantiated at s:
+    s == r ++ w, w is all whitespace, r does not end in whitespace (these determine r uniquely)."""
+    if not _RSTRIP:
+        S = z3.StringSort()
+        _RSTRIP.append((z3.Function("py_rstrip", S, S), z3.Function("py_rstrip_ws", S, S)))
+    F, W = _RSTRIP[0]
+    r, w = F(s), W(s)
+    ws = z3.Union(*[z3.Re(c) for c in (" ", "\t", "\n", "\r", "\x0b", "\x0c")])
+    if st is not None:
+        st.assume(s == z3.Concat(r, w))
+        st.assume(z3.InRe(w, z3.Star(ws)))
+        st.assume(z3.Or(r == z3.StringVal(""), z3.Not(z3.InRe(z3.SubString(r, z3.Length(r) - 1, 1), ws))))
+    return r
+
+
 def exc_class(name):
     c = getattr(builtins, name, None)
     if isinstance(c, type) and issubclass(c, BaseException):
@@ -148,7 +210,7 @@ class Engine:
             if name in st.glob:
                 return st.glob[name]
             if name in mod.consts:
-                return const(mod.consts[name])
+                return lift_const(mod.consts[name])
             if name in mod.functions:
                 return V(FN, ("func", fr.file, name))
             if name in mod.classes:
@@ -276,6 +338,8 @@ class Engine:
                 return const(ci.consts[attr])
             if attr in ci.methods:
                 return V(FN, ("method", file, cname, attr, None))
+        if base.k in self.kind_attr:
+            return self.kind_attr[base.k](self, base, attr, st)
         if base.k == "module":
             key = f"{base.t}.{attr}"
             if key in self.module_attrs:
@@ -286,6 +350,8 @@ class Engine:
     ext_attrs = {}
     module_attrs = {}
     extern_names = {}
+    kind_attr = {}
+    kind_index = {}
 
     # ---- operators
     def e_UnaryOp(self, e, st):
@@ -481,6 +547,17 @@ class Engine:
             if len(a.t) != len(b.t):
                 return z3.BoolVal(False)
             return z3.And([self.equal(x, y, st) for x, y in zip(a.t, b.t)] or [z3.BoolVal(True)])
+        if a.k == b.k and a.k in ("path", "pykey"):
+            return a.t == b.t
+        if a.k == "seq" and b.k == "seq":
+            return a.t == b.t
+        if a.k == "seq" or b.k == "seq":
+            s, o = (a, b) if a.k == "seq" else (b, a)
+            items = self.static_items(o, st)
+            if items is not None:
+                lit = z3.Concat(*[z3.Unit(as_int_term(x)) for x in items]) if len(items) > 1 else (
+                    z3.Unit(as_int_term(items[0])) if items else z3.Empty(s.t.sort()))
+                return s.t == lit
         return py_eq(a, b)
 
     def contains(self, container, item, st):
@@ -489,7 +566,9 @@ class Engine:
         if container.k == "setdisp":
             return z3.Or([self.equal(item, x, st) for x in container.t] or [z3.BoolVal(False)])
         if container.k == "cset":
-            return container.a(item)
+            return z3.Or([self.equal(item, x, st) for x in container.t] or [z3.BoolVal(False)])
+        if container.k == "cmap":
+            return z3.Or([self.equal(item, k, st) for k, _ in container.t] or [z3.BoolVal(False)])
         if container.k == REF:
             cell = st.heap[container.t]
             if isinstance(cell, CList):
@@ -502,6 +581,10 @@ class Engine:
                 return z3.Select(cell.dom, self.pykey(item))
         if container.k == STR and item.k == STR:
             return z3.Contains(container.t, item.t)
+        if container.k == "cell" and isinstance(container.t, SList):
+            return z3.Contains(container.t.seq, z3.Unit(item.t))
+        if container.k == "seq":
+            return z3.Contains(container.t, z3.Unit(as_int_term(item) if container.a == "int" else item.t))
         raise ToolLimit(f"'in' on {container.k}")
 
     def e_IfExp(self, e, st):
@@ -565,6 +648,17 @@ class Engine:
                 return
             if op == "Pow":
                 raise ToolLimit("**")
+        if op == "Add" and a.k == "seq":
+            items = self.static_items(b, st)
+            if items is not None:
+                t = a.t
+                for x in items:
+                    t = z3.Concat(t, z3.Unit(as_int_term(x) if a.a == "int" else x.t))
+                yield st, V("seq", t, a.a)
+                return
+            if b.k == "seq":
+                yield st, V("seq", z3.Concat(a.t, b.t), a.a)
+                return
         if op == "Add" and a.k == STR and b.k == STR:
             yield st, vstr(z3.Concat(a.t, b.t))
             return
@@ -632,6 +726,12 @@ class Engine:
             yield from self.index(base, vs[1], s1)
 
     def index(self, base, idx, st):
+        if base.k == "cell" and isinstance(base.t, SList):
+            yield st, V(base.t.ek, base.t.seq[as_int_term(idx)])
+            return
+        if base.k == "seq":
+            yield st, V(base.a, base.t[as_int_term(idx)])
+            return
         if base.k == TUPLE or (base.k == REF and isinstance(st.heap[base.t], CList)):
             items = base.t if base.k == TUPLE else st.heap[base.t].items
             if idx.k not in (INT, BOOL):
@@ -651,6 +751,9 @@ class Engine:
             if isinstance(cell, SList):
                 i = as_int_term(idx)
                 n = z3.Length(cell.seq)
+                if self.spec_mode:
+                    yield st, V(cell.ek, cell.seq[i])
+                    return
                 for s1, ok in self.fork(st, z3.And(i >= -n, i < n)):
                     if not ok:
                         yield s1, Raised("IndexError")
@@ -677,7 +780,25 @@ class Engine:
                     yield s1, vstr(z3.SubString(base.t, j, 1))
             return
         if base.k == "cmap":
-            yield from base.a(self, idx, st)
+            present = z3.Or([self.equal(idx, k, st) for k, _ in base.t] or [z3.BoolVal(False)])
+            for s1, ok in self.fork(st, present):
+                if not ok:
+                    yield s1, Raised("KeyError")
+                    continue
+                vals = [v for _, v in base.t]
+                if all(v.k == vals[0].k and v.k in (INT, REAL, BOOL, STR) for v in vals):
+                    t = vals[-1].t
+                    for k, v in reversed(base.t[:-1]):
+                        t = z3.If(self.equal(idx, k, s1), v.t, t)
+                    yield s1, V(vals[0].k, t)
+                else:
+                    for k, v in base.t:
+                        for s2, hit in self.fork(s1.copy(), self.equal(idx, k, s1)):
+                            if hit:
+                                yield s2, v
+            return
+        if base.k in self.kind_index:
+            yield from self.kind_index[base.k](self, base, idx, st)
             return
         raise ToolLimit(f"subscript on {base.k}")
 
@@ -722,6 +843,8 @@ class Engine:
         for s1, items in self.comp_items(e, st):
             if isinstance(items, Raised):
                 yield s1, items
+            elif isinstance(items, V) and items.k == "mapped":
+                yield s1, s1.alloc(SList(items.t, items.a))
             else:
                 yield s1, s1.alloc(CList(items))
 
@@ -735,6 +858,18 @@ class Engine:
                 yield s1, it
                 continue
             items = self.static_items(it, s1)
+            if items is None and it.k == REF and isinstance(s1.heap[it.t], SList) and not g.ifs \
+                    and isinstance(g.target, ast.Name) and self.is_pure([e.elt]):
+                cell = s1.heap[it.t]
+                x = z3.Const(f"elem!{self.fresh_id()}", typespec.SORTS[cell.ek])
+                s2 = s1.copy()
+                s2.locals[g.target.id] = V(cell.ek, x)
+                outs = list(self.eval(e.elt, s2))
+                if len(outs) == 1 and not isinstance(outs[0][1], Raised) and outs[0][1].k in (INT, REAL, BOOL, STR):
+                    r = outs[0][1]
+                    yield s1, V("mapped", py_map(r.t, x, cell.seq, typespec.SORTS[r.k]), r.k)
+                    continue
+                raise ToolLimit("comprehension body over symbolic list is not a pure scalar expression")
             if items is None:
                 raise ToolLimit("comprehension over a sequence of symbolic length")
 
@@ -807,7 +942,7 @@ class Engine:
 
 # ====================================================================== calls
 class _CallMixin:
-    SPEC_FUNCS = ("old", "implies", "ite", "trunc", "rhe", "floor", "is_int", "is_float", "is_bool",
+    SPEC_FUNCS = ("forall", "exists", "old", "implies", "ite", "trunc", "rhe", "floor", "is_int", "is_float", "is_bool",
                   "is_num", "is_str", "is_none", "inv", "same", "real", "iff", "forall_int", "seq_len",
                   "seq_at", "distinct_prefix", "kind_of")
 
@@ -853,6 +988,24 @@ class _CallMixin:
 
     def spec_call(self, e, st):
         name = e.func.id
+        if name in ("forall", "exists"):
+            lam = e.args[0]
+            if not isinstance(lam, ast.Lambda):
+                raise SpecError("forall/exists need a lambda")
+            bound = []
+            saved = self.spec_names
+            self.spec_names = dict(saved)
+            for a in lam.args.args:
+                x = z3.Int(f"q.{a.arg}!{self.fresh_id()}")
+                bound.append(x)
+                self.spec_names[a.arg] = vint(x)
+            try:
+                outs = list(self.eval(lam.body, st))
+            finally:
+                self.spec_names = saved
+            body = outs[0][1]
+            bt = body.t if body.k == BOOL else list(self.truth(body, st))[0][1]
+            return vbool(z3.ForAll(bound, bt) if name == "forall" else z3.Exists(bound, bt))
         if name == "old":
             if self.spec_old is None:
                 raise SpecError("old() without a pre-state")
@@ -946,6 +1099,8 @@ class _CallMixin:
             for s1, items in self.comp_items(e.args[0], st):
                 if isinstance(items, Raised):
                     yield s1, items
+                elif isinstance(items, V) and items.k == "mapped":
+                    yield from self.apply(f, [s1.alloc(SList(items.t, items.a))], {}, s1, e, from_gen=True)
                 else:
                     yield from self.apply(f, [vtuple(items)], {}, s1, e, from_gen=True)
             return
@@ -1141,6 +1296,15 @@ class _CallMixin:
             return
         if name == "len":
             v = pos[0]
+            if v.k == "cell" and isinstance(v.t, SList):
+                yield st, vint(z3.Length(v.t.seq))
+                return
+            if v.k == "seq":
+                yield st, vint(z3.Length(v.t))
+                return
+            if v.k in ("cset", "cmap"):
+                yield st, vint(len(v.t))
+                return
             if v.k == STR:
                 yield st, vint(z3.Length(v.t))
             elif v.k == TUPLE:
@@ -1273,7 +1437,13 @@ class _CallMixin:
                 yield st, VNONE
             return
         if name == "sorted":
-            items = self.static_items(pos[0], st)
+            v = pos[0]
+            if v.k in ("cmap", "cset"):
+                keys = [k for k, _ in v.t] if v.k == "cmap" else list(v.t)
+                ks = [simp(k.t) for k in keys]
+                if all(z3.is_string_value(k) for k in ks):
+                    yield st, st.alloc(CList([vstr(s) for s in sorted(k.as_string() for k in ks)]))
+                    return
             raise ToolLimit("sorted()")
         if name in ("getattr", "setattr", "hasattr", "eval", "exec", "open", "compile", "__import__"):
             raise ToolLimit(f"builtin {name}")
@@ -1297,6 +1467,18 @@ class _CallMixin:
                 st.heap[base.t] = SList(z3.Concat(cell.seq, z3.Unit(pos[0].t)), cell.ek)
             yield st, VNONE
             return
+        if attr == "extend" and len(pos) == 1 and pos[0].k == REF and isinstance(st.heap[pos[0].t], SList):
+            other = st.heap[pos[0].t]
+            if isinstance(cell, CList):
+                if not all(x.k == other.ek for x in cell.items):
+                    raise ToolLimit("extend: element kinds differ")
+                units = [z3.Unit(x.t) for x in cell.items]
+                base_seq = z3.Concat(*units) if len(units) > 1 else (units[0] if units else z3.Empty(other.seq.sort()))
+                st.heap[base.t] = SList(z3.Concat(base_seq, other.seq), other.ek)
+            else:
+                st.heap[base.t] = SList(z3.Concat(cell.seq, other.seq), cell.ek)
+            yield st, VNONE
+            return
         if attr == "extend" and len(pos) == 1:
             items = self.static_items(pos[0], st)
             if items is not None and isinstance(cell, CList):
@@ -1313,6 +1495,8 @@ class _CallMixin:
 
     def call_strmethod(self, attr, base, pos, kw, st, node):
         s = base.t
+        if kw and attr != "format":
+            raise ToolLimit(f"keyword arguments to str.{attr}")
         if attr == "isdigit" and not pos:
             # ASCII model of str.isdigit (assumption A-ASCII)
             yield st, vbool(z3.InRe(s, z3.Plus(z3.Range("0", "9"))))
@@ -1333,12 +1517,30 @@ class _CallMixin:
                     parts.append(x.t)
                 yield st, vstr(z3.Concat(*parts) if len(parts) > 1 else (parts[0] if parts else z3.StringVal("")))
                 return
-            hook = self.hooks.get("str.join")
-            if hook:
-                yield from hook(self, base, pos, st, node)
+            if pos[0].k == REF and isinstance(st.heap[pos[0].t], SList) and st.heap[pos[0].t].ek == STR:
+                seq = st.heap[pos[0].t].seq
+                yield st, vstr(py_join()(s, seq, z3.Length(seq)))
                 return
         if attr == "encode":
             yield st, V(STR, s, "bytes")
+            return
+        if attr == "format" and not pos:
+            tpl = simp(s)
+            if not z3.is_string_value(tpl):
+                raise ToolLimit("str.format on a non-constant template")
+            import string
+            parts = []
+            for lit, field, spec, conv in string.Formatter().parse(tpl.as_string()):
+                if lit:
+                    parts.append(z3.StringVal(lit))
+                if field is not None:
+                    if spec or conv or field not in kw:
+                        raise ToolLimit("str.format field form")
+                    parts.append(self.to_str_term(kw[field], st))
+            yield st, vstr(z3.Concat(*parts) if len(parts) > 1 else (parts[0] if parts else z3.StringVal("")))
+            return
+        if attr == "rstrip" and not pos:
+            yield st, vstr(py_rstrip(st, s))
             return
         hook = self.hooks.get("str." + attr)
         if hook:
@@ -1490,14 +1692,20 @@ class _CallMixin:
             s2.assume(ts)
             if not c.atomic:
                 for s3 in self.havoc(c, selfv, s2):
+                    nr = dict(names)
+                    nr["raised"] = vstr(exc)
                     for src in c.on_raise:
-                        s3.assume(self.spec_bool(src, s3, names, pre))
+                        s3.assume(self.spec_bool(src, s3, nr, pre))
                     outs.append((s3, Raised(exc)))
             else:
                 outs.append((s2, Raised(exc)))
         for exc in c.may_raise_other:
             s2 = st.copy()
             for s3 in self.havoc(c, selfv, s2) if not c.atomic else [s2]:
+                nr = dict(names)
+                nr["raised"] = vstr(exc)
+                for src in c.on_raise:
+                    s3.assume(self.spec_bool(src, s3, nr, pre))
                 outs.append((s3, Raised(exc)))
         ns = simp(none_raised)
         if not z3.is_false(ns) and self.feasible(st.pc, ns):
@@ -2030,6 +2238,19 @@ class _StmtMixin:
                 st.assume(self.spec_bool(src, st, inst, old_st))
                 self.lemma_uses.add(lname)
 
+    def lists_to_seq(self, spec, st):
+        """Lists that the loop mutates (declared in list_kinds) are represented as Seq from here on."""
+        for n, ek in (spec.get("list_kinds") or {}).items():
+            v = st.locals.get(n)
+            if v is not None and v.k == REF and isinstance(st.heap[v.t], CList):
+                items = st.heap[v.t].items
+                if not all(x.k == ek for x in items):
+                    raise ToolLimit(f"list {n} holds elements that are not {ek}")
+                sort = z3.SeqSort(typespec.SORTS[ek])
+                units = [z3.Unit(x.t) for x in items]
+                seq = z3.Concat(*units) if len(units) > 1 else (units[0] if units else z3.Empty(sort))
+                st.heap[v.t] = SList(seq, ek)
+
     def check_inv(self, spec, st, names, old_st, label, ordinal):
         for i, src in enumerate(spec.get("inv", [])):
             t = self.spec_bool(src, st, names, old_st)
@@ -2065,6 +2286,7 @@ class _StmtMixin:
         if len(st.sframes) != 1:
             raise ToolLimit("loop with invariant inside an inlined function")
         old_st = self.unit_pre
+        self.lists_to_seq(spec, st)
         names0 = self.loop_names(st, spec, vint(0))
         self.check_inv(spec, st, names0, old_st, "inv-init", ordinal)
         self.havoc_loop(s.body, st, spec)
@@ -2189,6 +2411,7 @@ class _StmtMixin:
         old_st = self.unit_pre
         tnames = [n.id for n in ast.walk(s.target) if isinstance(n, ast.Name)]
         i0 = vint(lo)
+        self.lists_to_seq(spec, st)
         names0 = self.loop_names(st, spec, vint(0))
         names0["i"] = i0
         self.check_inv(spec, st, names0, old_st, "inv-init", ordinal)
